@@ -167,7 +167,7 @@ def family_run(ctx, monitors, n_cases, profiles=PROFILES, procs=14, corpus=None,
     nsel = len(travparsed.SELECTIONS)
     lazy_idx = ([travparsed.MIXED_SETS, travparsed.RESTRICTED_WORKER, travparsed.PARTLY_INCOMPATIBLE,
                  travparsed.PARTLY_INCOMPATIBLE + nsel,         # the same with a skewed schedule (first worker slow)
-                 travparsed.MIXED_SETS_4] if n_lazyparsed else []) + \
+                 travparsed.MIXED_SETS_4, travparsed.MIXED_SETS_4 + nsel] if n_lazyparsed else []) + \
                [5 * (ctx.seed + seed_offset) + 3 * i for i in range(max(0, n_lazyparsed - 1))]
     pjobs += [(ctx.seed + seed_offset, i, monitors, scratch, True) for i in lazy_idx]
     with multiprocessing.get_context("fork").Pool(procs) as pool:
